@@ -1,7 +1,13 @@
 import Tumfl.Props.C17
+import Tumfl.Props.C17Replace
 #print axioms Tumfl.Props.C17_links
 #print axioms Tumfl.Props.C17_walk
 #print axioms Tumfl.Props.C17_replace
+#print axioms Tumfl.Props.C17_replace_exact
+#print axioms Tumfl.Props.C17_replace_elsewhere
+#print axioms Tumfl.Props.C17_replace_ancestors
+#print axioms Tumfl.Props.C17_after_edits
+#print axioms Tumfl.Props.C17_after_edits_exact
 #print axioms Tumfl.Inst.schema_replace
 #print axioms Tumfl.Inst.schema_links
 #print axioms Tumfl.Inst.schema_walk
